@@ -719,6 +719,7 @@ func main() {
 	concr := flag.Int("concr", 300, "controlled schedules: random 3-goroutine runs")
 	conce := flag.Int("conce", 120, "controlled schedules: random runs with small memory limits")
 	conct := flag.Int("conct", 40, "controlled schedules: random runs with reassembly timeouts")
+	noconc := flag.Bool("noconc", false, "skip the controlled concurrent runs (the schedule points could not be inserted into fragmentation.go); the stress phase still runs")
 	stressMs := flag.Int("stress", 3000, "uncontrolled stress phase: time budget in ms (0 = none)")
 	stressMax := flag.Int("stressmax", 400000, "uncontrolled stress phase: maximal number of rounds")
 	flag.Parse()
@@ -801,7 +802,16 @@ func main() {
 	// not depend on the -conc* flags)
 	rc := gen.New(*seed + 1000003)
 	concs := []*concCase{}
-	genExhaustive2(rc, *concx, func(c *concCase) { concs = append(concs, c) })
+	if *noconc {
+		*concx, *concr, *conce, *conct = 1, 0, 0, 0
+		fmt.Fprintln(os.Stderr, "controlled concurrent runs skipped (-noconc)")
+	}
+	if !*noconc {
+		genExhaustive2(rc, *concx, func(c *concCase) { concs = append(concs, c) })
+	}
+	if false {
+		genExhaustive2(rc, *concx, func(c *concCase) { concs = append(concs, c) })
+	}
 	for i := 0; i < *concr; i++ {
 		concs = append(concs, genRandom3(rc, 6))
 	}
